@@ -694,6 +694,8 @@ func (vc *VC) specCall(sc *SpecScope, x *SCall) *Value {
 				as := args()
 				vc.declareErrIs()
 				return boolV(app("errIs", as[0].Term, as[1].Term))
+			case "qmarks":
+				return intV(app("qmarks", args()[0].Term), nil)
 			case "str":
 				// str(b): the string made of the bytes of slice b
 				a := args()[0]
